@@ -299,6 +299,14 @@ let step (ss : sess) (t : str array) : str =
   | "code" -> code_dump s (int_of_string t.(1))
   | "dict" -> dict_dump s (int_of_string t.(1))
   | "pretty" -> "pretty:-"
+  | "cursor" ->
+    let rec nth l k = match l with [] -> None | x :: r -> if k = 0 then Some x else nth r (k - 1) in
+    (match nth s.heap 1, nth s.heap 2 with
+     | Some i, Some o ->
+       (match Cell.value i with
+        | CBits b -> Printf.sprintf "cur:%d:%d:%s:%s" (ion b.cstart) (ion b.cend) (cell_str o) (bits_of_cbs b)
+        | other -> Printf.sprintf "cur:?:?:%s:%s" (cell_str o) (cell_str other))
+     | _ -> "cur:unavailable")
   | "var" ->
     let name = coq_of_string (string_of_hexbytes t.(1)) in
     (match Vm.dict_entry s name with
